@@ -342,19 +342,29 @@ class PageBreakCalculator(BaseModel):
                 width_idx += 1
 
             # 2. Calculate header rows
+            # One heading row is rendered per page_by level (dividers excepted):
+            # at a group start from the first level whose value changed
+            # downwards, at the top of a continuation page for every level.
             pageby_rows = 0
-            if page_by and page_by_changes[row_idx]:
-                # Construct header text
-                header_parts = []
-                for col in page_by:
+            continuation_rows = 0
+            if page_by:
+                first_changed = 0
+                if row_idx > 0:
+                    first_changed = len(page_by)
+                    for level, col in enumerate(page_by):
+                        if str(df[col][row_idx - 1]) != str(df[col][row_idx]):
+                            first_changed = level
+                            break
+                for level, col in enumerate(page_by):
                     val = df[col][row_idx]
-                    if str(val) != "-----":
-                        header_parts.append(f"{col}: {val}")
-                header_text = " | ".join(header_parts)
-                if header_text:
-                    pageby_rows = self._calculate_header_rows(
-                        header_text, total_width, font_size=int(font_size)
+                    if str(val) == "-----":
+                        continue
+                    level_rows = self._calculate_header_rows(
+                        str(val), total_width, font_size=int(font_size)
                     )  # type: ignore
+                    continuation_rows += level_rows
+                    if level >= first_changed:
+                        pageby_rows += level_rows
 
             subline_rows = 0
             if subline_by and subline_by_changes[row_idx]:
@@ -379,6 +389,7 @@ class PageBreakCalculator(BaseModel):
                     "row_index": row_idx,
                     "data_rows": max_lines_in_row,
                     "pageby_header_rows": pageby_rows,
+                    "continuation_header_rows": continuation_rows,
                     "subline_header_rows": subline_rows,
                     "column_header_rows": 0,  # To be filled later or passed in
                     "total_rows": total_rows,
@@ -395,6 +406,7 @@ class PageBreakCalculator(BaseModel):
             "row_index": pl.Int64,
             "data_rows": pl.Int64,
             "pageby_header_rows": pl.Int64,
+            "continuation_header_rows": pl.Int64,
             "subline_header_rows": pl.Int64,
             "column_header_rows": pl.Int64,
             "total_rows": pl.Int64,
@@ -455,6 +467,11 @@ class PageBreakCalculator(BaseModel):
             ) and current_rows > 0:
                 current_page += 1
                 current_rows = 0
+                # The first row of a page sits under the headings of all its
+                # page_by levels, whether or not it starts a group
+                row_height += row.get("continuation_header_rows", 0) - row.get(
+                    "pageby_header_rows", 0
+                )
 
             row["page"] = current_page
             current_rows += row_height
